@@ -1411,6 +1411,48 @@ fn arbty(_t: &str, _data: &[u8]) -> String {
     "feature-off".into()
 }
 
+/// the three request enumerations: variant and payload as generated, and the bytes left
+#[cfg(feature = "arbitrary")]
+fn arbtop(kind: &str, data: &[u8]) -> String {
+    use arbitrary::{Arbitrary, Unstructured};
+    let mut u = Unstructured::new(data);
+    fn c1(r: &ctap1::Request) -> String {
+        match r {
+            ctap1::Request::Register(x) => format!(
+                "v:Register({})",
+                Val::Rec(vec![("challenge".into(), Val::Bytes(x.challenge.to_vec())), ("app_id".into(), Val::Bytes(x.app_id.to_vec()))]).show()
+            ),
+            ctap1::Request::Authenticate(x) => format!(
+                "v:Authenticate({})",
+                Val::Rec(vec![
+                    ("control_byte".into(), Val::Enum(format!("{:?}", x.control_byte))),
+                    ("challenge".into(), Val::Bytes(x.challenge.to_vec())),
+                    ("app_id".into(), Val::Bytes(x.app_id.to_vec())),
+                    ("key_handle".into(), Val::Bytes(x.key_handle.to_vec())),
+                ])
+                .show()
+            ),
+            ctap1::Request::Version => "e:Version".into(),
+        }
+    }
+    let shown = match kind {
+        "ctap2" => ctap2::Request::arbitrary(&mut u).map(|r| request_to_string(&r)),
+        "ctap1" => ctap1::Request::arbitrary(&mut u).map(|r| c1(&r)),
+        _ => ctap_types::authenticator::Request::arbitrary(&mut u).map(|r| match &r {
+            ctap_types::authenticator::Request::Ctap1(x) => format!("Ctap1:{}", c1(x)),
+            ctap_types::authenticator::Request::Ctap2(x) => format!("Ctap2:{}", request_to_string(x)),
+        }),
+    };
+    match shown {
+        Ok(s) => format!("ok {} rest={}", s, u.len()),
+        Err(e) => format!("err {:?}", e),
+    }
+}
+#[cfg(not(feature = "arbitrary"))]
+fn arbtop(_k: &str, _d: &[u8]) -> String {
+    "feature-off".into()
+}
+
 /// generate a request from raw bytes and exercise it: format, clone, compare, dispatch
 #[cfg(feature = "arbitrary")]
 fn arbreq(kind: &str, data: &[u8]) -> String {
@@ -1472,6 +1514,7 @@ fn run(op: &str, a: &[&str]) -> String {
         ("arb", 2) => arb(a[0], &opt_hex(a[1])),
         ("arbreq", 2) => arbreq(a[0], &opt_hex(a[1])),
         ("arbty", 2) => arbty(a[0], &opt_hex(a[1])),
+        ("arbtop", 2) => arbtop(a[0], &opt_hex(a[1])),
         ("dec2", 1) => {
             let data = unhex(a[0]);
             let out = match ctap2::Request::deserialize(&data) {
